@@ -266,6 +266,15 @@ class ModelWorld:
         c._config = self.config
         return c
 
+    def image_of(self, handle):
+        """library-free image of the container a handle (from mount_image) stands on"""
+        root = str(handle.get_folder())
+        files = {}
+        for p, n in self.fs.files.items():
+            if p.startswith(root + '/'):
+                files[p] = n.data
+        return ModelImage(files, [dict(r) for r in self.dbs[root + '/packs.idx'].versions[-1]], self.prefix_len, root)
+
     def fresh_folder(self):
         return '/vroot/new'
 
@@ -787,6 +796,9 @@ class RealWorld(RealImage):
 
     def mount_image(self, img):
         return self.C.Container(img.folder)
+
+    def image_of(self, handle):
+        return RealImage(str(handle.get_folder()), self.prefix_len)
 
     def fresh_folder(self):
         return os.path.join(self.base, 'new')
